@@ -506,21 +506,28 @@ def r2_coupling_helpers(ctx, rid):
                 uses.append((m.group(1), n, stmt_of(cfg, n)))
     if len(uses) < 2:
         raise AnalysisError(f"{rid}: broadcast_pre/broadcast_post emission sites not found in {f.qual}")
+    def role_literal(c, stmt, expr=None):
+        """('source'|'target', guard text) established for `stmt` by a dominating test of <x>['role'] / <x>.get('role') against a literal"""
+        for t, pol in R.path_literals(c, stmt, expr):
+            if not (isinstance(t, ast.Compare) and len(t.ops) == 1 and isinstance(t.ops[0], (ast.Eq, ast.NotEq))):
+                continue
+            for x, y in ((t.left, t.comparators[0]), (t.comparators[0], t.left)):
+                is_role = (isinstance(x, ast.Subscript) and isinstance(x.slice, ast.Constant) and x.slice.value == "role") or \
+                    (isinstance(x, ast.Call) and call_name(x) == "get" and x.args and isinstance(x.args[0], ast.Constant) and x.args[0].value == "role")
+                if is_role:
+                    if not (isinstance(y, ast.Constant) and y.value in ("source", "target")):
+                        raise AnalysisError(f"{rid}: unrecognised role test `{norm(t)}`")
+                    holds = isinstance(t.ops[0], ast.Eq) == pol
+                    return (y.value if holds else {"source": "target", "target": "source"}[y.value]), ("" if pol else "not ") + norm(t)
+        return None
+
     for helper, n, st in uses:
-        guards = [d for d in cfg.dominators(st) if isinstance(d, ast.If) and d is not st and isinstance(d.test, ast.Compare)
-                  and len(d.test.ops) == 1 and isinstance(d.test.ops[0], (ast.Eq, ast.NotEq))
-                  and isinstance(d.test.left, ast.Subscript) and isinstance(d.test.left.slice, ast.Constant) and d.test.left.slice.value == "role"]
-        if not guards:
+        rl = role_literal(cfg, st, n)
+        if rl is None:
             raise AnalysisError(f"{rid}: `{norm(st)}` is not under a test of info['role'] (unrecognised form)")
-        g = guards[0]
-        cmpv = g.test.comparators[0]
-        if not (isinstance(cmpv, ast.Constant) and cmpv.value in ("source", "target")):
-            raise AnalysisError(f"{rid}: unrecognised role test `{norm(g)}`")
-        in_true = any(contains(b, st) for b in g.body)
-        holds = in_true == isinstance(g.test.ops[0], ast.Eq)      # the test's equality holds on this branch
-        role_here = cmpv.value if holds else {"source": "target", "target": "source"}[cmpv.value]
+        role_here, gtext = rl
         want = "broadcast_pre" if role_here == "source" else "broadcast_post"
-        facts = {"guard": norm(g), "branch_role": role_here, "helper": helper}
+        facts = {"guard": gtext, "branch_role": role_here, "helper": helper}
         if helper == want:
             ctx.ok(rid, f, st, f"edge variables with role '{role_here}' are wrapped in {helper}", facts, label=f"use {helper}: {norm(st)}")
         else:
@@ -531,11 +538,13 @@ def r2_coupling_helpers(ctx, rid):
         if helper == want == "broadcast_post":
             hole = fstring_holes(n)[0]
             regs = [s for s in cfg.stmts() if isinstance(s, ast.Assign) and len(s.targets) == 1 and isinstance(s.targets[0], ast.Subscript)
-                    and isinstance(s.targets[0].value, ast.Name) and s.targets[0].value.id == "source_vars"
-                    and ast.dump(s.targets[0].slice) == ast.dump(hole) and any(contains(b, s) for b in (g.body if in_true else g.orelse))]
-            if not regs or not isinstance(regs[0].value, ast.Dict):
+                    and isinstance(s.targets[0].value, ast.Name) and isinstance(_inline1(ctx, f, s.value), ast.Dict)
+                    and ast.dump(s.targets[0].slice) == ast.dump(hole) and role_literal(cfg, s) == rl]
+            regs = [s for s in regs if any(isinstance(k, ast.Constant) and k.value == "node" for k in _inline1(ctx, f, s.value).keys)]
+            if not regs:
                 raise AnalysisError(f"{rid}: registration of the post-synaptic variable in source_vars not found next to `{norm(st)}`")
-            d = {k.value: v for k, v in zip(regs[0].value.keys, regs[0].value.values) if isinstance(k, ast.Constant)}
+            dct = _inline1(ctx, f, regs[0].value)
+            d = {k.value: v for k, v in zip(dct.keys, dct.values) if isinstance(k, ast.Constant)}
             node_role = Roles(ctx, f).atom(d.get("node")) if d.get("node") is not None else None
             if node_role is None and isinstance(d.get("node"), ast.Name):
                 # loop variables over the per-source-node table carry their role in their name (seed vocabulary of _roles_util)
@@ -559,20 +568,32 @@ def r2_coupling_helpers(ctx, rid):
     if len(prods) < 2:
         raise AnalysisError(f"{rid}: assignments of {{'role': ...}} not found in {g.qual}")
     for s, val in prods:
-        guards = [d for d in gcfg.dominators(s) if isinstance(d, ast.If) and d is not s and isinstance(d.test, ast.Compare) and len(d.test.ops) == 1
-                  and isinstance(d.test.ops[0], (ast.Eq, ast.NotEq)) and isinstance(d.test.comparators[0], ast.Constant)
-                  and d.test.comparators[0].value == "source"]
-        if not guards:
+        found = None
+        for t, pol in R.path_literals(gcfg, s):
+            if isinstance(t, ast.Compare) and len(t.ops) == 1 and isinstance(t.ops[0], (ast.Eq, ast.NotEq)) \
+                    and any(isinstance(x, ast.Constant) and x.value == "source" for x in (t.left, t.comparators[0])):
+                found = (t, pol)
+                break
+        if found is None:
             raise AnalysisError(f"{rid}: `{norm(s)}` is not under a `mapping == 'source'` test (unrecognised form)")
-        gd = guards[0]
-        in_true = any(contains(b, s) for b in gd.body)
-        is_source_branch = in_true == isinstance(gd.test.ops[0], ast.Eq)
+        t, pol = found
+        is_source_branch = isinstance(t.ops[0], ast.Eq) == pol
         want = "source" if is_source_branch else "target"
+        gtext = ("" if pol else "not ") + norm(t)
         if val == want:
-            ctx.ok(rid, g, s, f"edge_var_map entries {'equal to' if is_source_branch else 'other than'} 'source' get role '{val}'", {"guard": norm(gd)})
+            ctx.ok(rid, g, s, f"edge_var_map entries {'equal to' if is_source_branch else 'other than'} 'source' get role '{val}'", {"guard": gtext})
         else:
             ctx.violation(rid, g, s, f"edge_var_map entries {'equal to' if is_source_branch else 'other than'} 'source' get role '{val}': pre- and "
-                                     f"post-synaptic edge variables are exchanged", {"guard": norm(gd)})
+                                     f"post-synaptic edge variables are exchanged", {"guard": gtext})
+
+
+def _inline1(ctx, f, e):
+    """a name with a single plain definition -> that definition's value (one step), else e"""
+    if isinstance(e, ast.Name):
+        v = single_def_value(ctx, f, e)
+        if v is not None:
+            return v
+    return e
 
 
 # ------------------------------------------------------------------------------------------------
